@@ -302,7 +302,7 @@ def replace_particle(reaction, old: str, **changes):
 CASES = [
     dict(name="lc_pKpi_Kstar", file="lc_pKpi_Kstar", numeric="quick"),
     dict(name="lc_pKpi_L1520", file="lc_pKpi_L1520", numeric="quick"),
-    dict(name="d0_k0kpkm_a0", file="d0_k0kpkm_a0", numeric="quick"),
+    dict(name="d0_k0kpkm_a0", file="d0_k0kpkm_a0", numeric="thorough"),
     dict(name="jpsi_gpi0pi0_f0", file="jpsi_gpi0pi0_f0", numeric="quick"),
     dict(name="lc_nuKpi_Kstar", file="lc_pKpi_Kstar", numeric="quick",
          sub=("p", dict(name="nu(x)", mass=0.0, latex=r"\nu_x"))),
@@ -1401,12 +1401,14 @@ class C05Property:
         high = [n for n in general if is_high(n)]
         boundary = [n for n in general if n.endswith(":min+0") and not is_high(n)]  # equal masses, initial spin 0 / 1/2
         if thorough:
-            chosen = (mixed3 + pick_rng.sample(mixed4, 2) + pick_rng.sample([n for n in general if not is_high(n)], 8)
-                      + pick_rng.sample(high, 6) + pick_rng.sample(boundary, 4))
+            chosen = (mixed3 + pick_rng.sample([n for n in mixed4 if cost(n) <= 250], 2)
+                      + pick_rng.sample([n for n in general if not is_high(n) and cost(n) <= 250], 6)
+                      + pick_rng.sample([n for n in high if cost(n) <= 250], 4)
+                      + pick_rng.sample([n for n in boundary if cost(n) <= 250], 3))
         else:
-            chosen = (pick_rng.sample([n for n in mixed3 if cost(n) <= 110], 3)
-                      + pick_rng.sample([n for n in high if cost(n) <= 100], 1)
-                      + pick_rng.sample([n for n in boundary if cost(n) <= 100], 1))
+            chosen = (pick_rng.sample([n for n in mixed3 if cost(n) <= 110], 2)
+                      + pick_rng.sample([n for n in high if cost(n) <= 60], 1)
+                      + pick_rng.sample([n for n in boundary if cost(n) <= 60], 1))
         chosen = list(dict.fromkeys(chosen))
         chosen += [n for n in sorted(forced) if n in syn_reactions and n not in chosen][:4]
         # non-default public options (HARDENING rule 5): masses from the four-momenta, helicity couplings
@@ -1420,6 +1422,8 @@ class C05Property:
                                                                "options": syn_opts.get(n, {}),
                                                                "how": "tools.props.C05.synthetic_reaction(synthetic_topologies()[key], types, **options)"}},
                          reaction, cls))
+        # reactions whose skeleton disagreed come first: they must not fall victim to the time budget
+        jobs.sort(key=lambda j: 0 if j[0]["name"] in forced else 1)
         oracle_t0 = _time.time()
         skipped_budget = []
         for case, reaction, cls in jobs:
